@@ -48,31 +48,51 @@ def probes_for(obligation):
     return out
 
 
-def _prepare():
-    """Fresh scratch copy of /repo's working tree with the probe modules appended."""
+def _prepare(only=None):
+    """Fresh scratch copy of /repo's working tree with the probe modules appended (`only`: just these probe files)."""
     if os.path.exists(SCRATCH):
         shutil.rmtree(SCRATCH)
     os.makedirs(SCRATCH)
     subprocess.run(['rsync', '-a', '--exclude', 'target', '--exclude', '.git', REPO + '/', SCRATCH + '/'], check=True)
     for pf, src in ATTACH.items():
         p = os.path.join(VERIF, 'probes', pf)
-        if not os.path.exists(p):
+        if not os.path.exists(p) or (only is not None and pf not in only):
             continue
         stem = pf[:-3]
         with open(os.path.join(SCRATCH, src), 'a') as f:
             f.write(f'\n#[cfg(test)]\n#[path = "{p}"]\nmod verif_replay_{stem};\n')
 
 
-def run_probe(tests, keep=False):
+def run_probe(tests, keep=False, _only=None):
     """Run the given test names (list or str) on the real code. Returns dict."""
     if isinstance(tests, str):
         tests = [tests]
+    if _only is None:
+        res = run_probe(tests, keep, _only=False)
+        if res.get('build_error'):
+            # a probe file that calls an internal function the change removed breaks the build of ALL probes: retry each test with
+            # only the probe file that defines it
+            merged = dict(res, results=dict(res['results']), failed_tests=[], build_error=None)
+            for t in tests:
+                m = re.search(r'verif_replay_(\w+?_probes)', t)
+                if not m:
+                    continue
+                r1 = run_probe([t], keep, _only={m.group(1) + '.rs'})
+                merged['results'][t] = r1['results'].get(t, {'status': 'build-error', 'output': r1.get('build_error') or ''})
+                if r1.get('failed'):
+                    merged['failed_tests'].append(t)
+                    merged.setdefault('failing_input', {}).update(r1.get('failing_input', {}))
+                if r1.get('build_error'):
+                    merged['build_error'] = r1['build_error']
+            merged['failed'] = bool(merged['failed_tests'])
+            return merged
+        return res
     os.makedirs(os.path.dirname(TARGET), exist_ok=True)
     lock = open(os.path.join(VERIF, '.cache', 'probe.lock'), 'w')
     fcntl.flock(lock, fcntl.LOCK_EX)
     t0 = time.time()
     try:
-        _prepare()
+        _prepare(_only or None)
         env = dict(os.environ, CARGO_TARGET_DIR=TARGET, CARGO_NET_OFFLINE='true', RUST_BACKTRACE='0')
         results = {}
         failed = []
